@@ -301,7 +301,9 @@ def replay_input(inp):
 
 
 SCALAR_SPECS = [None, int, float, str, bool, frozenset({int, float}), frozenset({str, bool}), 7, 1.5, "x", True,
-                frozenset({7, "x"}), frozenset({int, 1.5}), frozenset({None, str})]
+                frozenset({7, "x"}), frozenset({int, 1.5}), frozenset({None, str}),
+                # FALSY example values declare their types like any other example: 0, 0.0, "", False -- alone and inside sets
+                0, 0.0, "", False, frozenset({0, ""}), frozenset({int, ""}), frozenset({0.0, str}), frozenset({False})]
 FRAME_SPECS = [{"x": int}, {"x": int, "y": frozenset({str, float})}, {"x": None, "y": 1.5}, {"k": None}, {"x": frozenset({7, "x"})}]
 
 
